@@ -28,6 +28,25 @@ theorem length_setUpdated (ents : List Ent) (i : Nat) (v : Str) :
 theorem length_setCreated (ents : List Ent) (i : Nat) (v : Str) :
     (setCreated ents i v).length = ents.length := by simp [setCreated]
 
+/-- no path of any member of any class runs `self.force_updated_at()` outside the test of the switch
+(a fact about `Generated/Setters.lean`: `Nix.C19.C19_no_unguarded_stamp`) -/
+def NoUnguarded : Prop := ∀ mb ∈ members, ∀ o ∈ mb.outcomes, o.touch ≠ .always
+
+theorem lookupIn_mem {c : Cls} {m : Mem} {mb : Member} (h : lookupIn c m = some mb) : mb ∈ members := by
+  unfold lookupIn at h
+  exact List.mem_of_find?_eq_some h
+
+theorem resolve_mem {c : Cls} {m : Mem} {mb : Member} (h : resolve c m = some mb) : mb ∈ members := by
+  unfold resolve at h
+  obtain ⟨c', _, hc'⟩ := List.exists_of_findSome?_eq_some h
+  exact lookupIn_mem hc'
+
+/-- the outcome a call of the model takes is none of the unguarded ones (there are none) -/
+theorem not_always (hna : NoUnguarded) {c : Cls} {m : Mem} {mb : Member} {o : Outcome}
+    (hres : resolve c m = some mb) (hin : ¬ ((!mb.outcomes.contains o) = true)) : o.touch ≠ .always := by
+  have : o ∈ mb.outcomes := by simpa using hin
+  exact hna mb (resolve_mem hres) o this
+
 def Op.isCall : Op → Bool
   | .call _ _ _ _ => true
   | _ => false
@@ -55,7 +74,7 @@ theorem aliveAt_some {s : State} {i : Nat} {ent : Ent} (h : aliveAt s i = some e
     · cases h
   · cases h
 
-theorem step_ent (s : State) (op : Op) (j : Nat) (e : Ent) (h : s.ents[j]? = some e) :
+theorem step_ent (hna : NoUnguarded) (s : State) (op : Op) (j : Nat) (e : Ent) (h : s.ents[j]? = some e) :
     ∃ e', (step s op).1.ents[j]? = some e' ∧ EntStep s op j e e' := by
   have hj : j < s.ents.length := by
     rcases Nat.lt_or_ge j s.ents.length with hlt | hge
@@ -96,7 +115,8 @@ theorem step_ent (s : State) (op : Op) (j : Nat) (e : Ent) (h : s.ents[j]? = som
         · exact ⟨e, h, .same⟩
         · split
           · exact ⟨e, h, .same⟩
-          · split
+          · rename_i hin
+            split
             · rename_i hauto
               split
               · exact ⟨e, h, .same⟩
@@ -132,7 +152,12 @@ theorem step_ent (s : State) (op : Op) (j : Nat) (e : Ent) (h : s.ents[j]? = som
                     refine .touched v hauto rfl ?_ hv
                     simp only [Op.target, hal, htouch]
                   · exact ⟨e, by simp [hej], .same⟩
-            · exact ⟨e, h, .same⟩
+              · rename_i htouch
+                exact absurd htouch (not_always hna hres hin)
+            · split
+              · rename_i htouch
+                exact absurd htouch (not_always hna hres hin)
+              · exact ⟨e, h, .same⟩
   | forceCreated e0 t =>
     simp only [step]
     split
